@@ -46,6 +46,14 @@ ORIGIN = {
 }
 # where the object is defined and what the re-exporting module is called: 'sibling' = defined in p._impl, re-exported by p.rx;
 # 'sibling:Ox' = the re-exporter's name begins with the object's name; 'initdef:*' = defined in the package __init__ itself
+# ways of writing the __all__ that lists the exported name (Python ends up with the name in __all__ for every one of them)
+ALLFORMS = {
+    'list': '__all__ = ["{E}"]\n', 'tuple': '__all__ = ("{E}",)\n', 'two-names': 'zz_other = 1\n__all__ = ["zz_other", "{E}"]\n',
+    'then-sorted': '__all__ = ["{E}"]\n__all__ = sorted(__all__)\n', 'then-plus-computed': '_more = []\n__all__ = ["{E}"]\n__all__ = __all__ + _more\n',
+    'then-list-call': '__all__ = ["{E}"]\n__all__ = list(__all__)\n', 'second-literal-wins': '__all__ = ["zz_gone"]\n__all__ = ["{E}"]\n',
+    'append': '__all__ = []\n__all__.append("{E}")\n', 'extend': '__all__ = []\n__all__.extend(["{E}"])\n', 'augmented': '__all__ = []\n__all__ += ["{E}"]\n',
+    'annotated': '__all__: list = ["{E}"]\n', 'in-if': 'if True:\n    __all__ = ["{E}"]\n', 'before-import': None,
+}
 DEF = ['p._impl']
 REXES = ('init', 'sibling', 'sibling:Ox', 'initdef:rx', 'initdef:Ox')
 
@@ -127,6 +135,7 @@ def program(kind: str, rex: str, form: str, origin: str, consumers: Sequence[str
 
 
 def _program(kind: str, rex: str, form: str, origin: str, consumers: Sequence[str], fmt: str) -> Tuple[Dict[str, str], str, List[Tuple[str, str, str]]]:
+    form, _, allform = form.partition('@')
     exported = 'N2' if form == 'as' else 'O'
     imp = {'plain': 'from ._impl import O\n', 'as': 'from ._impl import O as N2\n', 'star': 'from ._impl import *\n'}[form]
     mods = {'p': '', '_impl': OBJ[kind] + ORIGIN[origin], 'rx': ''}
@@ -134,7 +143,7 @@ def _program(kind: str, rex: str, form: str, origin: str, consumers: Sequence[st
     if form == 'star' and origin == 'all-without':
         # a star import only sees the names of the origin's __all__: the object would not be imported at all
         imp = 'from ._impl import O\n'
-    rex_src = imp + f'__all__ = ["{exported}"]\n'
+    rex_src = (f'__all__ = ["{exported}"]\n' + imp) if allform == 'before-import' else imp + ALLFORMS[allform or 'list'].replace('{E}', exported)
     if rex == 'init':
         mods['p'] = rex_src
     else:
@@ -254,7 +263,7 @@ def judge_program(kind: str, rex: str, form: str, origin: str, consumers: Sequen
         orders_bad = [o for o, v in per_order.items() if (clause, ctype) in v]
         dep = '' if len(orders_bad) == len(per_order) else '/some-schedules'
         # which dimensions matter is part of the signature only where they select a different code path
-        sig = f'{clause}/{ctype}{dep}'
+        sig = f'{clause}/{ctype}{dep}' + (f'/all:{form.partition("@")[2]}' if '@' in form else '')
         res['violations'].append(core.violation(sig, f'{kind} re-exported by {rex} ({form}, origin {origin}), consumers {list(consumers)}, {fmt}: {clause} '
                                                      f'for consumer type {ctype} under {len(orders_bad)}/{len(per_order)} schedules (e.g. {list(orders_bad[0])})', dict(case0)))
     if len(res['samples']) < 2 and len(consumers) >= 1:
@@ -307,6 +316,9 @@ def jobs(tier: str) -> Iterable[Tuple[str, Any]]:
     for kind in ('class', 'func', 'var'):
         for rex in REXES:
             yield ('full-runs', ('cli', kind, rex))
+    for af in ALLFORMS:
+        if af != 'list':
+            yield ('spellings-of-__all__', ('allforms', af))
     if tier == 'thorough':
         for kind in OBJ:
             for rex in ('init', 'sibling'):
@@ -327,6 +339,22 @@ def run_job(job: Any, tier: str) -> Dict[str, Any]:
                     continue        # CPython would not bind the name in the consumer at all
                 for fmt in ('epytext', 'restructuredtext'):
                     judge_program(kind, rex, form, origin, [consumer], fmt, res)
+    elif job[0] == 'allforms':
+        for kind in ('class', 'func', 'var'):
+            for rex in ('init', 'sibling'):
+                for form in ('plain', 'as', 'star'):
+                    for consumer in ('definer', 'reexporter', 'dotted-definer'):
+                        # differential: how __all__ is written must not matter - whatever is (not) right with the plain list literal is judged there
+                        base = core.result()
+                        judge_program(kind, rex, form, 'plain', [consumer], 'epytext', base)
+                        basesigs = {v['sig'] for v in base['violations']}
+                        tmp = core.result()
+                        judge_program(kind, rex, f'{form}@{job[1]}', 'plain', [consumer], 'epytext', tmp)
+                        for k in ('evals', 'traces'):
+                            res[k] += tmp[k]
+                        for k in ('states', 'transitions', 'nontrivial', 'outcomes'):
+                            res[k] |= tmp[k]
+                        res['violations'] += [v for v in tmp['violations'] if v['sig'].rsplit('/all:', 1)[0] not in basesigs]
     elif job[0] == 'pairs':
         _, kind, rex, form, origin = job
         for c1, c2 in itertools.combinations(CONSUMERS, 2):
